@@ -5,12 +5,12 @@ package main
 // versioned by reaching assignment, and "facts ∧ axioms ⇒ goal" is decided propositionally (DESIGN.md, Appendix B).
 
 import (
-	"golang.org/x/tools/go/ssa"
 	"fmt"
 	"go/ast"
 	"go/constant"
 	"go/token"
 	"go/types"
+	"golang.org/x/tools/go/ssa"
 	"sort"
 	"strconv"
 	"strings"
@@ -180,13 +180,15 @@ type entFn struct {
 	info    *types.Info
 	assigns map[types.Object][]ast.Node // assignment sites per local object, over the whole root function
 	addrOf  map[types.Object]bool       // locals whose address is taken
-	calls   []*ast.CallExpr             // all calls in the root function that are not known to be effect-free
-	fstores []fieldStore                // assignments to field paths
-	axioms  []Formula
-	axSeen  map[string]bool
-	atomObj map[Atom][]types.Object // locals an atom mentions (for the closure rule)
-	effEnd  map[ast.Node]token.Pos  // post statements of for loops take effect at the end of the body
-	family  func(*types.Func) bool  // evaluator-family predicate (contract axioms), may be nil
+	// &v used only as a field value of a composite literal
+	addrInLit map[types.Object]bool
+	calls     []*ast.CallExpr // all calls in the root function that are not known to be effect-free
+	fstores   []fieldStore    // assignments to field paths
+	axioms    []Formula
+	axSeen    map[string]bool
+	atomObj   map[Atom][]types.Object // locals an atom mentions (for the closure rule)
+	effEnd    map[ast.Node]token.Pos  // post statements of for loops take effect at the end of the body
+	family    func(*types.Func) bool  // evaluator-family predicate (contract axioms), may be nil
 }
 
 type fieldStore struct {
@@ -213,7 +215,7 @@ func (w *World) ent(f *Func) *entFn {
 	if e := entCache[root]; e != nil {
 		return e
 	}
-	e := &entFn{w: w, root: root, info: root.Pkg.TypesInfo, assigns: map[types.Object][]ast.Node{}, addrOf: map[types.Object]bool{}, axSeen: map[string]bool{}, atomObj: map[Atom][]types.Object{}, effEnd: map[ast.Node]token.Pos{}}
+	e := &entFn{w: w, root: root, info: root.Pkg.TypesInfo, assigns: map[types.Object][]ast.Node{}, addrOf: map[types.Object]bool{}, addrInLit: map[types.Object]bool{}, axSeen: map[string]bool{}, atomObj: map[Atom][]types.Object{}, effEnd: map[ast.Node]token.Pos{}}
 	entCache[root] = e
 	info := e.info
 	record := func(x ast.Expr, at ast.Node) {
@@ -260,6 +262,15 @@ func (w *World) ent(f *Func) *entFn {
 			if n.Op == token.AND {
 				if id, ok := unparen(n.X).(*ast.Ident); ok {
 					if obj := info.Uses[id]; obj != nil {
+						// &v stored as a field of a composite literal hands the variable over to the value being built:
+						// nothing in this function writes it through that pointer (writes through fields elsewhere are
+						// the who-may-write rules' business), so v still has its single value here
+						if kv, isKV := e.w.parent[n].(*ast.KeyValueExpr); isKV && kv.Value == ast.Expr(n) {
+							if _, inLit := e.w.parent[kv].(*ast.CompositeLit); inLit {
+								e.addrInLit[obj] = true
+								break
+							}
+						}
 						e.addrOf[obj] = true
 					}
 				}
@@ -1461,8 +1472,9 @@ func (e *entFn) addAxiom(name string, ax Formula) {
 }
 
 // installContracts adds the contract axioms of two-result calls inside the root function:
-//   v, err := g(...) with g in the evaluator family:  err != nil ∨ v != nil
-//   v, ok := s.GetValue(...) on a variable.Retriever/Storer:  ¬ok ∨ v != nil           (assumption A2)
+//
+//	v, err := g(...) with g in the evaluator family:  err != nil ∨ v != nil
+//	v, ok := s.GetValue(...) on a variable.Retriever/Storer:  ¬ok ∨ v != nil           (assumption A2)
 func (e *entFn) installContracts(family func(*types.Func) bool) {
 	if e.family != nil {
 		return
